@@ -9,9 +9,12 @@ from specs.common import run, ASSUME_COMMON
 # carriers.  21 600 quick cases = 12 complete bases + 20 736 random cases; 3 000 000 thorough
 # cases = 1 666 bases.
 SPEC = {
-    "runs": [run("e1-recogniser", "c16_b3_jaeger", "asan", 21600, 3000000, need_lib=False)],
+    "runs": [run("e1-recogniser", "c16_b3_jaeger", "asan", 21600, 3000000, need_lib=False),
+             # the shared propagator objects used by 2..8 threads at once (TSan + perturbation shim)
+             run("e2-threads", "prop_threads", "tsan", 60, 3000, sq=2, st=8, need_lib=False, params={"prop": "C16"},
+                 sources=["harness/prop_threads.cc", "vf/shim/vf_runtime.cc"])],
     "floors": {
-        "quick": {"enum_b3_single_byte_mutants_51": 13056, "enum_jaeger_single_byte_mutants_54": 13824,
+        "quick": {"concurrent_cases_ge4_threads": 15, "extracts_repeated_over_scribbled_stack": 100000, "enum_b3_single_byte_mutants_51": 13056, "enum_jaeger_single_byte_mutants_54": 13824,
                   "enum_multi_id_single_byte_mutants": 4096, "enum_multi_sampled_values": 89,
                   "enum_flag_bytes_x_propagators": 768 * 3, "roundtrips": 20000, "roundtrips_reused_carrier": 6000,
                   "roundtrips_b3single": 7000, "roundtrips_b3multi": 7000, "roundtrips_jaeger": 7000,
@@ -64,6 +67,7 @@ SPEC = {
             {"name": "one-byte appends/prepends; every prefix, suffix, one-byte deletion and duplication per base",
              "counter": "enum_one_byte_extensions, enum_cuts"},
         ]},
+    "rule_extra": ' Every Extract is executed twice over differently pre-filled stacks and must give the same outcome (extract-deterministic: ids decoded from memory the propagator never wrote are caught). Run e2-threads: case j = 2..8 threads doing 20..200 round trips each through ONE shared B3 single / B3 multi / Jaeger propagator object, under TSan with seeded yields/sleeps; each thread must read back its own ids and sampled bit.',
     "assumptions": ASSUME_COMMON + [
         "must-accept forms: b3 = tid(32|16 lowercase hex)-sid(16)[-(0|1|d)[-parent(16)]]; X-B3-TraceId(32|16)/X-B3-SpanId(16) with "
         "X-B3-Sampled absent|0|1; uber-trace-id = tid(32|16):sid(16):(0|parent16):flags(1-2 lowercase hex, sampled = bit 0); "
